@@ -213,7 +213,7 @@ def metric_cases(draw, tier):
     c['dimensions'] = draw(st.sampled_from([1, 2, 3]))
     c['temperature'] = draw(st.sampled_from([1.0, 123.0, 300.0, 650.5, 1500.0]))
     c['k'] = draw(st.sampled_from([0.25, 0.5, 1.0, 1.7, 3.0, 4.0]))
-    c['s'] = draw(st.sampled_from([0.25, 0.5, 1.0, 2.0, 3.3, 4.0]))
+    c['s'] = draw(st.sampled_from([0.25, 0.5, 1.0, 2.0, 3.3, 4.0, 1.4142135623730951, 0.3333333333333333]))
     c['extend_at'] = draw(st.integers(0, T))
     c['swap_axes'] = draw(st.sampled_from([False, False, True]))
     c['n_parts'] = draw(st.integers(2, max(2, min(5, (T - 1) // 3))))
